@@ -21,7 +21,8 @@ from sim import driver  # noqa: E402
 driver.bootstrap()
 
 from sim import gen_args  # noqa: E402
-from sim.world import FAULTABLE_KINDS, WRITE_KINDS, READ_KINDS  # noqa: E402
+from sim.world import (FAULTABLE_KINDS, WRITE_KINDS, READ_KINDS,  # noqa: E402
+                       EFFECT_KINDS)
 
 PROP = "C17"
 ERRNOS = ["EIO", "ENOSPC", "EACCES", "EMFILE"]
@@ -92,11 +93,10 @@ def _effective_mutation_before_fault(trace):
     mutated = False
     for (_k, kind, _path, _n, fault) in trace:
         if fault is not None and not kind.startswith("peer-"):
-            if kind in ("open-w", "remove", "copystat") \
-                    and fault == "crash-after":
+            if kind in EFFECT_KINDS and fault == "crash-after":
                 mutated = True
             return True, mutated
-        if kind in ("open-w", "remove", "copystat"):
+        if kind in EFFECT_KINDS:
             mutated = True
     return False, mutated
 
@@ -262,8 +262,8 @@ def run_scenario(seed, shard, idx, tier):
         # which each mutating I/O step was issued (in-flight state), not
         # only uniformly over a run that is mostly parsing
         near = [ln for (_k, kind, ln) in base.step_lines
-                if kind in ("open-w", "write", "remove", "copystat",
-                            "tmp-write", "close")]
+                if kind in EFFECT_KINDS + ("write", "tmp-write", "close",
+                                           "close-w", "fsync")]
         picks = near if tier != "quick" else \
             rng.sample(near, min(4, len(near)))
         for line in picks:
